@@ -170,6 +170,21 @@ impl Prop for LayoutProp {
     fn simplify(&self, case: &Plan) -> Vec<Plan> {
         simplify_plan(case)
     }
+    // plans of hundreds or thousands of ops: every candidate costs a full build
+    fn max_shrink_iters(&self) -> u32 {
+        if self.stream_len > 3000 {
+            60
+        } else {
+            1500
+        }
+    }
+    fn minimise_budget(&self) -> usize {
+        if self.stream_len > 3000 {
+            150
+        } else {
+            3000
+        }
+    }
 }
 
 // ---- oracles ------------------------------------------------------------------------------------
